@@ -1,16 +1,26 @@
 #!/usr/bin/env python3
-"""Property dispatcher."""
+"""Property dispatcher.  Exit 0 / 1 (VIOLATION printed) / 2 (inconclusive)."""
 import os, subprocess, sys
 HERE = os.path.dirname(os.path.abspath(__file__))
-ENGINE_S = {"C01", "C02", "C03", "C04", "C05", "C06", "C07", "C09", "C10", "C13", "C15", "C16", "C17", "C18"}
+ENGINE_S = {"C01", "C02", "C03", "C04", "C05", "C06", "C07", "C09", "C10", "C13", "C15", "C17", "C18"}
+# properties decided by Kani harnesses, each with a concrete native companion run by the Engine-S driver
+ENGINE_K = {"C08", "C11", "C12", "C16"}
+
+
 def main():
     prop = sys.argv[1]
     tier = sys.argv[sys.argv.index("--tier") + 1] if "--tier" in sys.argv else "quick"
     if prop in ENGINE_S:
         level = "translation_validation" if prop == "C18" else "model_checking"
         sys.exit(subprocess.call([sys.executable, os.path.join(HERE, "driver.py"), prop, "--tier", tier, "--level", level]))
+    if prop in ENGINE_K:
+        s_exit = subprocess.call([sys.executable, os.path.join(HERE, "driver.py"), prop, "--tier", tier, "--level", "model_checking"])
+        k_exit = subprocess.call([sys.executable, os.path.join(HERE, "kani_driver.py"), prop, "--tier", tier, "--s-exit", str(s_exit)])
+        sys.exit(1 if 1 in (s_exit, k_exit) else (2 if 2 in (s_exit, k_exit) else 0))
     if prop == "C14":
         sys.exit(subprocess.call([sys.executable, os.path.join(os.path.dirname(HERE), "mir", "c14.py"), "--tier", tier]))
     print("unknown property", prop)
     sys.exit(2)
+
+
 main()
